@@ -261,9 +261,10 @@ func legQUIC(thorough bool) {
 	cases := R.Counter("quic_cases")
 	perms := [][][]int{nil, permutations(1), permutations(2), permutations(3)}
 	type job struct {
-		v    qver
-		hi   int
-		cuts []int
+		v       qver
+		hi      int
+		cuts    []int
+		overlap bool // cuts = {a, b}, a < b: two frames [0,b) and [a,L) that overlap on [a,b) (retransmission)
 	}
 	var jobs []job
 	hs := make([][]byte, len(quicHellos))
@@ -292,11 +293,12 @@ func legQUIC(thorough bool) {
 		}
 		R.Set(fmt.Sprintf("quic_cut_points_hello%d", hi), len(pts))
 		for _, v := range []qver{quicV1, quicV2} {
-			jobs = append(jobs, job{v, hi, nil})
+			jobs = append(jobs, job{v, hi, nil, false})
 			for a := 0; a < len(pts); a++ {
-				jobs = append(jobs, job{v, hi, []int{pts[a]}})
+				jobs = append(jobs, job{v, hi, []int{pts[a]}, false})
 				for b := a + 1; b < len(pts); b++ {
-					jobs = append(jobs, job{v, hi, []int{pts[a], pts[b]}})
+					jobs = append(jobs, job{v, hi, []int{pts[a], pts[b]}, false})
+					jobs = append(jobs, job{v, hi, []int{pts[a], pts[b]}, true})
 				}
 			}
 		}
@@ -315,20 +317,23 @@ func legQUIC(thorough bool) {
 			segs = append(segs, cseg{prev, h[prev:c]})
 			prev = c
 		}
+		if j.overlap {
+			segs = []cseg{{0, h[:j.cuts[1]]}, {j.cuts[0], h[j.cuts[0]:]}}
+		}
 		k := len(segs)
 		for oi, order := range perms[k] {
 			for pattern := 0; pattern < 5; pattern++ {
 				for li, lay := range layoutsFor(k) {
 					dgrams := buildQuicSequence(j.v, j.hi, segs, order, pattern, lay)
 					v := refQuicSequence(dgrams)
-					desc := fmt.Sprintf("%s hello%d cuts=%v order=%v pattern=%d layout=%s", j.v.name, j.hi, j.cuts, order, pattern, lay.name)
+					desc := fmt.Sprintf("%s hello%d cuts=%v overlap=%v order=%v pattern=%d layout=%s", j.v.name, j.hi, j.cuts, j.overlap, order, pattern, lay.name)
 					if !v.required {
 						report("quic", "harness", desc, "reference does not accept the harness's own well-formed sequence: "+desc, hxs(dgrams))
 						continue
 					}
 					cases.Add(1)
 					distinct(fnv(dgrams...))
-					runUDP("quic "+j.v.name, fmt.Sprintf("%d|%d|%v|%d|%d|%d", j.hi, len(j.cuts), j.cuts, oi, pattern, li), desc, dgrams, &v, true)
+					runUDP("quic "+j.v.name, fmt.Sprintf("%d|%d|%v|%v|%d|%d|%d", j.hi, len(j.cuts), j.overlap, j.cuts, oi, pattern, li), desc, dgrams, &v, true)
 					if len(dgrams) == 1 && oi == 0 && pattern == 0 {
 						runUDPSingle("quic "+j.v.name, fmt.Sprintf("%d|%v|%d", j.hi, j.cuts, li), desc, dgrams[0], &v)
 					}
